@@ -6,6 +6,12 @@
 //	c22 t <name>          ToRDNSequence of a Name built from its fields, then FillFromRDNSequence of the result
 //	c22 f <seq>           FillFromRDNSequence into a zero Name, then ToRDNSequence with OriginalRDNS kept / reset to nil
 //	c22 a <name> <seq>    FillFromRDNSequence into an already populated Name (append semantics)
+//	c22 s                 the declaration of pkix.RDNSequence (reflection: slice types, the "SET" name suffix, field order and struct
+//	                      tags through the real parseFieldParameters; interface{} rendered as the string kind that stands in
+//	                      for it) against the model's schema term rdnSchema
+//	c22 d <name>          the DER leg: asn1.Marshal(ToRDNSequence(name)) -> asn1.Unmarshal (strict) -> FillFromRDNSequence;
+//	                      the Lean side runs the same pipeline through its model of encoding/asn1 (ZV.Model.C18) on the schema
+//	                      SEQUENCE OF SET OF SEQUENCE {OID, string}; bytes, decoded sequence and filled Name are compared
 //
 //	name  = "-" | item{,item}      item = Key:hex{;hex}  (Key = Go field name; one value per hex, "" = empty string)
 //	                                      | CommonName:hex | SerialNumber:hex | X:atv{;atv} (ExtraNames) | N:atv{;atv} (Names)
@@ -13,6 +19,8 @@
 //	atv   = oid=val     oid = dotted decimal | "_" (empty OID)     val = "s"hex (Go string) | "o"tag"."hex (non-string)
 //
 // Output: t: "<seq> | <name dump>"   f: "<name dump> | <seq kept> | <seq reset>"   a: "<name dump> | <seq kept>"
+// d: "<der hex> | <decoded seq> | rest=<n> | <name dump> dom=<0|1>"  or  "merr dom=…" (Marshal fails)  or  "<der hex> uerr dom=…"
+// (Unmarshal fails); dom = the sequence is in the domain of the Lean theorem name_der_roundtrip (ZV.C22.seqOK).
 // name dump = name items in struct order (only non-empty fields) + " O=" + seq(OriginalRDNS).
 package c22
 
@@ -467,6 +475,30 @@ func encodable(s pkix.RDNSequence) bool {
 	return true
 }
 
+// inLeanDomain mirrors ZV.C22.seqOK (the decidable domain of the Lean theorem name_der_roundtrip): every value a Go string
+// that is valid UTF-8, every attribute type an OBJECT IDENTIFIER that Marshal accepts and strict Unmarshal reads back
+// (>= 2 arcs, first <= 2, second < 40 unless the first is 2, first sub-identifier and all further arcs < 2^31).
+func inLeanDomain(s pkix.RDNSequence) bool {
+	for _, r := range s {
+		for _, a := range r {
+			v, ok := a.Value.(string)
+			if !ok || !utf8.ValidString(v) {
+				return false
+			}
+			t := a.Type
+			if len(t) < 2 || t[0] < 0 || t[0] > 2 || t[1] < 0 || (t[0] != 2 && t[1] >= 40) || t[0]*40+t[1] > 2147483647 {
+				return false
+			}
+			for _, k := range t[2:] {
+				if k < 0 || k > 2147483647 {
+					return false
+				}
+			}
+		}
+	}
+	return true
+}
+
 // isCanonical: the sequences ToRDNSequence can produce from fields alone (no ExtraNames), stated over refRows.
 func isCanonical(s pkix.RDNSequence) bool {
 	pos := -1
@@ -544,10 +576,36 @@ func derLeg(seq pkix.RDNSequence, tags *[]string) string {
 	return ""
 }
 
+// schemaText renders a Go type the way lean/ZV/Drv/C22.lean renders a schema term.
+func schemaText(t reflect.Type) string {
+	if t == reflect.TypeOf(asn1.ObjectIdentifier{}) {
+		return "oid"
+	}
+	switch t.Kind() {
+	case reflect.Interface, reflect.String: // interface{}: represented by the string kind (exact for Go-string values)
+		return "str"
+	case reflect.Slice:
+		k := "L"
+		if strings.HasSuffix(t.Name(), "SET") {
+			k = "LS"
+		}
+		return k + "(" + schemaText(t.Elem()) + ")"
+	case reflect.Struct:
+		var fs []string
+		for i := 0; i < t.NumField(); i++ {
+			fs = append(fs, asn1.ZVFieldParametersText(t.Field(i).Tag.Get("asn1"))+":"+schemaText(t.Field(i).Type))
+		}
+		return "{" + strings.Join(fs, ";") + "}"
+	}
+	panic("schemaText: unsupported type " + t.String())
+}
+
 func exec(line string) zv.Out {
 	f := strings.Fields(line)
 	var tags []string
 	switch f[1] {
+	case "s":
+		return zv.Out{Go: schemaText(reflect.TypeOf(pkix.RDNSequence(nil))), Tags: []string{"s:schema"}}
 	case "t":
 		n := parseName(f[2])
 		seq := n.ToRDNSequence()
@@ -590,6 +648,48 @@ func exec(line string) zv.Out {
 			}
 		} else {
 			tags = append(tags, "der:skipped-invalid-utf8-or-non-string")
+		}
+		return zv.Out{Go: out, Viol: viol, Tags: tags}
+	case "d":
+		n := parseName(f[2])
+		seq := n.ToRDNSequence()
+		in := inLeanDomain(seq)
+		dom := " dom=0"
+		if in {
+			dom = " dom=1"
+			tags = append(tags, "d:in-domain")
+		} else {
+			tags = append(tags, "d:outside-domain")
+		}
+		der, err := asn1.Marshal(seq)
+		if err != nil {
+			viol := ""
+			if in {
+				viol = "DER leg: Marshal failed on a sequence of the theorem's domain: " + err.Error()
+			}
+			return zv.Out{Go: "merr" + dom, Viol: viol, Tags: append(tags, "d:marshal-error")}
+		}
+		var dec pkix.RDNSequence
+		rest, err := asn1.Unmarshal(der, &dec)
+		if err != nil {
+			viol := ""
+			if in {
+				viol = "DER leg: strict Unmarshal of Marshal's output failed on a sequence of the theorem's domain: " + err.Error()
+			}
+			return zv.Out{Go: hex.EncodeToString(der) + " uerr" + dom, Viol: viol, Tags: append(tags, "d:unmarshal-error")}
+		}
+		var m pkix.Name
+		m.FillFromRDNSequence(&dec)
+		out := hex.EncodeToString(der) + " | " + seqStr(dec) + " | rest=" + strconv.Itoa(len(rest)) + " | " + nameDump(&m) + dom
+		viol := ""
+		if in {
+			viol = derLeg(seq, &tags)
+		}
+		for _, r := range seq {
+			if len(r) > 1 {
+				tags = append(tags, "d:multi-valued-rdn")
+				break
+			}
 		}
 		return zv.Out{Go: out, Viol: viol, Tags: tags}
 	case "f", "a":
@@ -993,6 +1093,53 @@ func gen(g *zv.Gen) {
 	for i := 0; i < n; i++ {
 		g.Emit("c22 f " + randSeq(r))
 	}
+	// the DER leg through the Lean model of encoding/asn1 (string-valued attributes only: a non-string interface{} value
+	// has no counterpart in the schema)
+	g.Emit("c22 s")
+	g.Emit("c22 d -")
+	g.Emit("c22 d CommonName:6578616d706c652e636f6d,Country:5553;4445,Organization:41636d65")
+	g.Emit("c22 d Country:5553;44;4445;;5553,Organization:c3a9;41;2a;26;41")
+	for _, o := range []string{"2.999.2147483647", "2.2147483567", "2.2147483568", "1.2.2147483648", "1.40", "3.1", "2", "_", "0.39.0", "2.0", "1.2.840.113549.1.9.1"} {
+		g.Emitf("c22 d X:%s=s4142", o)
+	}
+	for _, f := range fields {
+		for _, v := range pool {
+			h := hex.EncodeToString([]byte(v))
+			g.Emitf("c22 d %s:%s", f.key, h)
+			if f.slice != nil {
+				g.Emitf("c22 d %s:%s;%s;%s", f.key, h, hex.EncodeToString([]byte(pool[(len(v)+3)%len(pool)])), hex.EncodeToString([]byte(pool[(len(v)+7)%len(pool)])))
+			}
+		}
+	}
+	n = g.N(5000, 250000)
+	for i := 0; i < n; i++ {
+		var line string
+		if r.Chance(30) { // one or two fields with many values: exercises the SET OF sort
+			var items []string
+			for k := 1 + r.Intn(2); k > 0; k-- {
+				f := fields[r.Intn(len(fields))]
+				if f.slice == nil {
+					continue
+				}
+				m := 2 + r.Intn(6)
+				var l []string
+				for j := 0; j < m; j++ {
+					l = append(l, randVal(r, r.Chance(90)))
+				}
+				items = append(items, f.key+":"+hexList(l))
+			}
+			if len(items) == 0 || (len(items) == 2 && strings.SplitN(items[0], ":", 2)[0] == strings.SplitN(items[1], ":", 2)[0]) {
+				continue
+			}
+			line = strings.Join(items, ",")
+		} else {
+			line = randName(r, 5+r.Intn(60), true, r.Chance(80))
+		}
+		if strings.Contains(line, "=o") {
+			continue
+		}
+		g.Emit("c22 d " + line)
+	}
 	// fill into a populated name
 	n = g.N(1000, 40000)
 	for i := 0; i < n; i++ {
@@ -1002,5 +1149,5 @@ func gen(g *zv.Gen) {
 
 func init() {
 	zv.Register(&zv.Prop{ID: "C22", Topic: "c22", Gen: gen, Exec: exec,
-		Rule: "t: Names with 0-3 values per field (19 fields, ExtraNames, Names) from a pool of empty/printable/UTF-8/special-character/invalid-UTF-8 values, every field alone with every pool value, every pair of fields; f: every sequence of <=2 RDNs x <=2 attributes over a small alphabet (exhaustive), canonical / perturbed / free-form random sequences incl. nil, empty, empty RDNs, unknown and non-emitted types, mixed RDNs, non-string values; a: fill into a populated Name. A case is one distinct line. T3 = independent field/OID table in the harness: exact equality on the pure legs, per-RDN multiset equality + byte-identical re-marshal on the DER leg, canonical <=> re-emission reproduces the sequence"})
+		Rule: "t: Names with 0-3 values per field (19 fields, ExtraNames, Names) from a pool of empty/printable/UTF-8/special-character/invalid-UTF-8 values, every field alone with every pool value, every pair of fields; f: every sequence of <=2 RDNs x <=2 attributes over a small alphabet (exhaustive), canonical / perturbed / free-form random sequences incl. nil, empty, empty RDNs, unknown and non-emitted types, mixed RDNs, non-string values; a: fill into a populated Name; d: Names (every field alone with every pool value, 1 and 3 values; random names with string-valued ExtraNames; fields with 2-7 values; boundary OIDs) through Marshal -> strict Unmarshal -> Fill, compared with the Lean pipeline over its encoding/asn1 model (bytes, decoded sequence, filled Name, membership in the theorem's domain). A case is one distinct line. T3 = independent field/OID table in the harness: exact equality on the pure legs, per-RDN multiset equality + byte-identical re-marshal on the DER leg, canonical <=> re-emission reproduces the sequence"})
 }
